@@ -1,14 +1,19 @@
 #!/bin/bash
 # Run every seeded mutant against the check of its property (quick tier); print a table.
 # usage: tools/seeded_sweep.sh [tier] [filter]
+# The repository that is patched is $VERIF_REPO (default /repo); under `vp run --with-repo` pass
+# VERIF_REPO=$VP_RUN_REPO so that the sweep works on the run's own snapshot.
 T=${1:-quick}; F=${2:-}
-cd /repo || exit 2
+HERE="$(cd "$(dirname "$0")/.." && pwd)"
+REPO=${VERIF_REPO:-/repo}
+export VERIF_REPO=$REPO
+cd "$REPO" || exit 2
 if [ -n "$(git status --porcelain --untracked-files=no)" ]; then echo "repo dirty"; exit 2; fi
-for d in /verif/seeded/*${F}*/; do
+for d in "$HERE"/seeded/*${F}*/; do
   id=$(basename $d); P=${id%%-*}
   if ! git apply --check $d/patch.diff 2>/dev/null; then echo "$id | patch does not apply"; continue; fi
   git apply $d/patch.diff
-  out=$(cd /verif && ./check $P $T 2>&1)
+  out=$(cd "$HERE" && ./check $P $T 2>&1)
   rc=$?
   clause=$(echo "$out" | grep "failed clause" | head -1 | sed 's/^ *failed clause //' | cut -c1-110)
   git checkout -- . ; git clean -fdq odml
